@@ -58,6 +58,11 @@ def gen_cases(rng, tier):
                                                  "roll", "rroll", "scalar", "cmp", "zero_fill", "zero_fill", "stats", "format", "annotate_eq"]), r[0], r[1]])
             else:
                 ops.append([k] + r[:3])
+        if any(o[1] != 1 for op in ops if op[0] == "const" for o, _ in op[1]):
+            # float twins next to non-integral Fractions would make sums inexact (3.0 + 1/3): keep such populations exact
+            for op in ops:
+                if op[0] in ("retype", "pool_twin", "shorthand") and "float" in op:
+                    op[op.index("float")] = "Fraction"
         cases.append({"kind": "ops", "ops": ops})
     return cases
 
